@@ -136,3 +136,16 @@ static void run_9008(const ShapeDesc& sd, RunCtl& ctl) {
 static const ShapeDesc shape_9008 = {9008, "unifex::any_sender_of<T>(unifex::let_error(e.leaf(0), [=](auto&& err) { ...; return e.leaf(1); }))", nodes_9008, 4, 0, 2, 3, &run_9008};
 static Reg reg_9008(&shape_9008);
 }  // namespace
+namespace {
+using namespace ef;
+// P9009: any_sender_of<> holding a schedule(s) sender directly (witness of the known finding sender_for_hijacks_type_erasure_builtins)
+static const NodeDesc nodes_9009[] = {
+  {K_ANY, 1, 0, 1, {1, 0, 0, 0, 0}, 'E'},
+  {K_SCHEDULE, 2, 1, 0, {0, 0, 0, 0, 0}, 'E'}
+};
+static void run_9009(const ShapeDesc& sd, RunCtl& ctl) {
+  run_shape_impl<Cfg<1>>(sd, ctl, [](auto e) { return unifex::any_sender_of<>(unifex::schedule(e.sched(1))); });
+}
+static const ShapeDesc shape_9009 = {9009, "unifex::any_sender_of<>(unifex::schedule(e.sched(1)))", nodes_9009, 2, 0, 0, 1, &run_9009};
+static Reg reg_9009(&shape_9009);
+}  // namespace
